@@ -190,8 +190,8 @@ def run_case(p, name, c0, params, variant, schedule=None, model_seed=None):
                     "print(bad); sys.exit(1 if bad else 0)\n")
 
 
-def redundant_circuit(rnd, n_in, n_g):
-    """Random binary circuit over the supported set with built-in redundancy."""
+def redundant_circuit(rnd, n_in, n_g, wide=False):
+    """Random circuit over the supported set with built-in redundancy (wide: some AND/OR/XOR-family gates read 3-4 operands)."""
     inputs = [f"x{i}" for i in range(n_in)]
     nodes = list(inputs)
     gates = []
@@ -204,7 +204,9 @@ def redundant_circuit(rnd, n_in, n_g):
 
     for _ in range(n_g):
         kind = rnd.random()
-        if kind < 0.15:
+        if wide and len(nodes) >= 3 and rnd.random() < 0.35:
+            add(rnd.choice([G.AND, G.OR, G.XOR, G.NAND, G.NOR, G.NXOR]), rnd.sample(nodes, rnd.choice([3, 3, 4]) if len(nodes) >= 4 else 3))
+        elif kind < 0.15:
             add(G.NOT, [rnd.choice(nodes)])
         elif kind < 0.3 and len(nodes) >= 2:
             a, b = rnd.sample(nodes, 2)
@@ -333,6 +335,8 @@ def unit(p, item, tier, seed):
         run_case(p, f"correlated[{s}:{i}]", c0, dict(basis="XAIG", enable_validation=True), "canonical")
     for i in range(6 if not thorough else 14):
         fam.append((f"seeded[{s}:{i}]", redundant_circuit(rnd, rnd.randint(2, 4), rnd.randint(3, 9 if thorough else 7))))
+    for i in range(3 if not thorough else 8):
+        fam.append((f"seeded-wide-gates[{s}:{i}]", redundant_circuit(rnd, rnd.randint(3, 4), rnd.randint(2, 6), wide=True)))
     variants = ["canonical", "reversed", ("shuffled", s), ("truncated", 2)]
     for name, c0 in fam:
         if not name.startswith("seeded"):
@@ -375,7 +379,7 @@ def run(rep, tier, seed, only=None):
     rep.bounds = {"circuits": "special redundant circuits + seeded binary circuits over the 11 supported types, <=4 inputs, <=7 (quick) / <=9 (thorough) base gates plus redundancy",
                   "parameters": "basis AIG/XAIG/FULL (str), max_subcircuit_size {2,4,9}, cut_size {2,3,5} (+ 6 on six-leaf cones), cut_limit {2,25}, time limit {15} quick / {1,15} thorough",
                   "cut families": "canonical, reversed, shuffled(seed), truncated(2)", "solver models": "z3's own model + random-phase models under 40 (quick) / 200 (thorough) seeds on cones with complementary outputs, one random seed per seeded case", "time-limit schedules": "no call, exactly the k-th call (k<4 quick / <6 thorough), every call from the k-th on times out (environment stub of pebble's time-limited future)", "hash seeds": "the runner's own PYTHONHASHSEED (quick); subprocess per seed 0..3 (thorough)"}
-    rep.outside = ["n-ary gates (pattern simulation reads two operands)", "hash seeds other than those run", "circuits with functionally equivalent gates: internal errors there are counted, not alarmed (the property excludes them)"]
+    rep.outside = ["hash seeds other than those run", "circuits with functionally equivalent gates: internal errors there are counted, not alarmed (the property excludes them)"]
     rep.rule = "program = (circuit, parameter setting, cut family); equivalence decided by z3 over all inputs"
     rep.explanation = "translation validation of each minimize_subcircuits call"
     if thorough and not os.environ.get("VERIF_C04_CHILD"):
